@@ -124,6 +124,7 @@ def check(ctx):
     # ---------------- (f) every delay record is one the dt / delay setters reach (shared with C04.e)
     from . import c04
     c04.records_sized_and_registered(ctx, "C06.f/C04.e")
+    ctx.import_clauses("C14", {"C14.t", "C14.c"}, "C06.g", pick=lambda s: s.startswith("DelayedMixin"), minimum=3)
 
 
 def monitor_consumer_consistency(ctx, RULE="C06.d", only=None):
